@@ -309,6 +309,30 @@ theorem CInv_insert (b : Builder) (n : Node) (hb : CInv b) (hk : n.kind.complete
       · cases hkey; omega
       · have := hb.seen key id hkey; omega
 
+theorem CInv_insertRule (b : Builder) (n : Node) (hb : CInv b) (hk : n.kind.completeKind = true)
+    (hc : ∀ k ∈ n.children, k < b.nodes.length) :
+    CInv (b.insertRule n).2 ∧ Pre b (b.insertRule n).2 ∧ (b.insertRule n).1 < (b.insertRule n).2.nodes.length := by
+  unfold Builder.insertRule
+  split
+  · have hp : b.nodes <+: b.nodes ++ [n] := List.prefix_append _ _
+    refine ⟨⟨?_, ?_⟩, hp, by simp [Builder.insertIncomplete]⟩
+    · intro i m hi
+      simp only [Builder.insertIncomplete] at hi
+      by_cases hlt : i < b.nodes.length
+      · rw [List.getElem?_append_left hlt] at hi
+        exact hb.nodes i m hi
+      · have : i = b.nodes.length := by
+          rcases Nat.lt_or_ge b.nodes.length i with h | h
+          · rw [List.getElem?_eq_none (by simp; omega)] at hi; cases hi
+          · omega
+        subst this
+        simp at hi; subst hi
+        exact ⟨hc, hk⟩
+    · intro key id hkey
+      simp only [Builder.insertIncomplete, List.length_append, List.length_cons, List.length_nil]
+      have := hb.seen key id hkey; omega
+  · exact CInv_insert b n hb hk hc
+
 structure CHyp (ctx : Ctx) (M : DB) (rk : String → Nat) : Prop where
   der : ctx.derived = some M
   maxp : 1 ≤ ctx.maxProofs
@@ -504,12 +528,12 @@ theorem addRuleNodes_c (ctx : Ctx) (rel : String) (values : Tuple) (idx : Nat) :
     split
     · rename_i hge
       exact ⟨hb, Pre.refl b, hres, id, fun _ hlt => by omega⟩
-    · obtain ⟨c1, p1, l1⟩ := CInv_insert b
+    · obtain ⟨c1, p1, l1⟩ := CInv_insertRule b
         { kind := .rule idx (fb.filter (fun p => !isPlaceholderName p.1)), pred := rel, args := values, children := kids }
         hb rfl (hk (fb, kids) List.mem_cons_self)
       obtain ⟨c2, p2, l2, n2, _⟩ := addRuleNodes_c ctx rel values idx sts
-        (res ++ [(b.insert { kind := .rule idx (fb.filter (fun p => !isPlaceholderName p.1)), pred := rel, args := values, children := kids }).1])
-        (b.insert { kind := .rule idx (fb.filter (fun p => !isPlaceholderName p.1)), pred := rel, args := values, children := kids }).2
+        (res ++ [(b.insertRule { kind := .rule idx (fb.filter (fun p => !isPlaceholderName p.1)), pred := rel, args := values, children := kids }).1])
+        (b.insertRule { kind := .rule idx (fb.filter (fun p => !isPlaceholderName p.1)), pred := rel, args := values, children := kids }).2
         c1 (fun st h => KidsLt_mono p1 (hk st (List.mem_cons_of_mem _ h)))
         (fun id hid => by
           rcases List.mem_append.mp hid with h | h
